@@ -266,7 +266,7 @@ Definition reviewed_inplace : list (string * string * string) :=
     ("newton.py", "GlobalizedNewtonMethod.step", "step_result.active_set") ].
 Definition inplace_ok (s : string * string * string * string * list string) : bool :=
   let '(m, f, kind, target, origins) := s in
-  out_of_scope m || String.eqb m "display.py"
+  out_of_scope m || (String.eqb m "display.py" && negb (prefix "method " kind || prefix "function " kind))
   || target_is_bookkeeping target
   || existsb (fun t => let '(m', f', t') := t in String.eqb m m' && String.eqb f f' && String.eqb target t') reviewed_inplace
   || (negb (match origins with [] => true | _ => false end) && forallb origin_fresh origins).
